@@ -53,7 +53,8 @@ def run(rep):
         rnd = random.Random(int(os.environ.get("VERIF_SEED", "0") or 0))
         pts = [(c["inputs"].get("lat") or 0.0, c["inputs"].get("lon") or 0.0, c["inputs"].get("elev") or 0.0) for c in cands[:20]]
         pts += [(rnd.uniform(-89.9, 89.9), rnd.uniform(-180, 180), rnd.choice([0.0, 500.0, -100.0])) for _ in range(400)]
-        pts += [(la, 39.823333, 0.0) for la in (-60, 0, 21.0, 22.0, 60)] + [(la, -140.176667, 0.0) for la in (-60, 0, 40)] + [(10, 180.0, 0), (10, -180.0, 0)]
+        pts += [(la, 39.823333, 0.0) for la in (-60, -30, 0, 21.0, 22.0, 60, 80)] + [(la, -140.176667, 0.0) for la in (-80, -60, -30, -10, 0, 40, 80)] + \
+               [(10, 180.0, 0), (10, -180.0, 0), (-45, 180.0, 0), (89.9, 0.0, 0), (-89.9, 100.0, 0)]
         found = {}
         for key, desc, c, r in native(pts):
             found.setdefault(key, []).append((desc, c, r))
